@@ -29,6 +29,7 @@ F_NULL = "C20-null-key-sort-order"
 F_VERT = "C20-vertical-filter-uncovered-column"
 F_NA = "C20-bloom-nonascii-token-boundary"
 F_LIT = "C20-literal-type-mismatch"
+F_GRP = "C20-null-key-grouped-index"
 STROPS = ("match", "ipinrange", "like", "matchop")
 OPS = {"=": "Ceq", "!=": "Cne", "<": "Clt", "<=": "Cle", ">": "Cgt", ">=": "Cge"}
 
@@ -414,6 +415,96 @@ def multi_stream(ck, binp):
         "rule": "2..6 attached data files (rows in the flush sort's order, 1..4 rows per fragment, rare words so that the bloom filter empties whole "
                 "files the primary index kept) x condition trees over the key, MATCHPHRASE on the indexed and on a non-indexed column x batch settings; "
                 "non-trivial = some fragment matches and some fragment is not delivered"}
+
+
+def grouped_stream(ck, binp):
+    """the primary index of the production attached flush (real sortRecord through a hook): direct oracle on segments + the model
+    of Grouped.v under two readings of a null index cell (-infinity = repaired, pad value = the reading a93f46a applies to
+    every index). Fails closed: the evaluator must answer for every case."""
+    n = 400 if ck.tier == "quick" else 5000
+    rc, cs, out = run_harness(ck, binp, ["grouped", str(n)], prefixes=('{"gid"',))
+    if rc != 0 or len(cs) != n:
+        ck.broken.append("harness c20 grouped failed rc=%d cases=%d/%d: %s" % (rc, len(cs), n, out[-400:]))
+        return
+    rng = lambda rs: coq_list(["(%s, %s)" % (nat(a), nat(b)) for a, b in rs])
+    shard, files = 200, []
+    for i in range(0, len(cs), shard):
+        items = []
+        for t in cs[i:i + shard]:
+            idx = coq_list([coq_list(["None" if v is None else "(Some %s)" % z(v) for v in row]) for row in (t["groups"] or [])])
+            code = 0
+            if t["scanerr"]:
+                code = 2 if "panic" in t["scanerr"] else 1
+            items.append("(mkG %s (%s : list Z) (%s : list key) (%s : list nat) (%s : list nat) %s %s %s %s %s (%s : list (nat*nat)) (%s : list (nat*nat)))" % (
+                coq_list([coq_bool(b) for b in t["isint"]]), coq_list([z(x) for x in t["pads"]]), idx,
+                coq_list([nat(x) for x in (t["counts"] or [])]), coq_list([nat(x) for x in (t["offsets"] or [])]),
+                cond_coq(t.get("effcond") or t["in"]["cond"], [0], "true"), nat(t["in"]["coarse"]), nat(t["minmarks"]),
+                coq_bool(bool(t["conderr"])), nat(code), rng(t["ranges"]), rng(t["segranges"])))
+        txt = ("From Coq Require Import ZArith List Bool. From OG Require Import C20.Model C20.Corr.\nImport ListNotations.\n"
+               "Definition R := Eval vm_compute in grouped_results [\n%s\n].\nPrint R.\n") % ";\n".join(items)
+        files.append(("g%d" % (i // shard), txt))
+    res = []
+    for idx, (rc, o) in enumerate(ck.coq_eval_many(files, timeout=900)):
+        m = re.search(r"R\s*=\s*(\[.*\])\s*:\s*list", o, re.S) if rc == 0 else None
+        r = None
+        if m:
+            try:
+                r = ast.literal_eval(re.sub(r"%\w+", "", m.group(1)).replace(";", ",").replace("true", "True").replace("false", "False"))
+            except (ValueError, SyntaxError):
+                r = None
+        want = len(cs[idx * shard:(idx + 1) * shard])
+        if r is None or len(r) != want:
+            ck.broken.append("grouped stream: model evaluation failed or answered for %s of %d cases: %s" % (None if r is None else len(r), want, o[-300:]))
+            return
+        res += r
+    if any(not (isinstance(e, tuple) and len(e) == 3) for e in res):
+        ck.broken.append("grouped stream: unexpected shape of the model's answer")
+        return
+    mis_first = [i for i, e in enumerate(res) if e[0] != 0]
+    mis_pad = [i for i, e in enumerate(res) if e[1] != 0]
+    if not mis_first:
+        reading = "repaired"
+    elif not mis_pad:
+        reading = "current"
+    else:
+        reading = None
+    known = viol = 0
+    for i, t in enumerate(cs):
+        if not t["oracle"]:
+            continue
+        m1, m2, cov = res[i]
+        badgroups = set(t["seggroup"][s_] for s_, m in enumerate(t["segmatch"]) if m and not any(a <= s_ < b for a, b in t["segranges"]))
+        nullish = any(v is None for row in t["groups"] for v in row[:max(t["used"], 1)])
+        # signature of C20-null-key-grouped-index: a used key column of the key-grouped index holds a null; the implementation
+        # equals the model that reads a null cell as the pad value; every key group with an unread matching segment is kept by the
+        # model that reads it as -infinity
+        if nullish and m2 == 0 and not (t["scanerr"] or "").startswith("panic") and badgroups and -1 not in badgroups and \
+                all(g < len(cov) and cov[g] for g in badgroups) and ck.match_finding(F_GRP):
+            ck.known_finding(F_GRP, "a segment with a matching row is not read: the index of the attached flush orders a null key strictly first, the reader reads a null cell as the type's pad value")
+            known += 1
+            continue
+        viol += 1
+        if viol <= 3:
+            ck.violation({"kind": "direct-oracle", "stream": "grouped", "what": t["oracle"][:4], "in": t["in"], "case": t["gid"],
+                          "groups": t["groups"], "counts": t["counts"], "ranges": t["ranges"], "segranges": t["segranges"]})
+    if reading is None and not viol:
+        i = [k for k in mis_first if k in set(mis_pad)]
+        k = i[0] if i else mis_first[0]
+        ck.broken.append("correspondence C20 key-grouped index: Scan / getSegmentRanges / KeySorter order / __fragment__ layout match the model of Grouped.v "
+                         "under neither reading of a null index cell (case %d, masks %s)" % (cs[k]["gid"], res[k][:2]))
+        if not getattr(ck, "nofail_detail", None):
+            ck.nofail_detail = {"kind": "correspondence", "stream": "grouped", "in": cs[k]["in"], "groups": cs[k]["groups"], "counts": cs[k]["counts"],
+                                "offsets": cs[k]["offsets"], "ranges": cs[k]["ranges"], "segranges": cs[k]["segranges"], "masks": res[k][:2]}
+    if ck.match_finding(F_GRP) and known == 0:
+        ck.notes.append("open finding %s did not reproduce in this run (stale?)" % F_GRP)
+    ck.cov["key_grouped_index"] = {
+        "evaluations": len(cs), "nontrivial": sum(1 for t in cs if t["nontrivial"]),
+        "with_multi_segment_groups": sum(1 for t in cs if any(c > 1 for c in (t["counts"] or []))),
+        "with_nulls": sum(1 for t in cs if any(v is None for row in (t["groups"] or []) for v in row)),
+        "null_reading_detected": reading, "distinguishing": sum(1 for e in res if e[0] != e[1]),
+        "known": known, "violations": viol,
+        "rule": "generated rows through the real ColumnStoreTSSPWriter.sortRecord with 8 rows per segment; real NewKeyCondition, "
+                "PKIndexReaderImpl.Scan over the key-group record + NewIndexFragmentVariable mark, real getSegmentRanges; oracle per segment"}
 
 
 def blackbox(ck):
@@ -923,6 +1014,7 @@ def main(ck):
             ck.broken.append("harness c20 bloom: skip-index probe line missing")
     if n:
         multi_stream(ck, binp)
+        grouped_stream(ck, binp)
     if n and (ck.tier == "thorough" or os.environ.get("C20_BLACKBOX")):
         blackbox(ck)
     if n:
